@@ -669,33 +669,51 @@ def _split_field(p):
     return out
 
 
-def _pdiv_exact(n, d, max_steps=20000):
+def _pdiv_exact(n, d, max_steps=4000):
     """exact quotient n / d in K[x] with K = Q(sqrt p.., i), or None if d does not divide n"""
+    import heapq
+    if len(n) > 6000 or len(n) * len(d) > 400000:
+        return None
     N, D = _split_field(n), _split_field(d)
     lead_d = max(D, key=_mono_key)
+    dvars = {s for m in D for s, _ in m}
+    nvars = {s for m in N for s, _ in m}
+    if not dvars <= nvars:
+        return None
+    if max(sum(e for _, e in m) for m in N) < sum(e for _, e in lead_d):
+        return None
     try:
         inv_cd = _const_inverse(D[lead_d])
     except ZeroDivisionError:
         return None
     rem = N
+    heap = [(_neg_key(m), m) for m in rem]
+    heapq.heapify(heap)
     q = {}
     steps = 0
-    while rem:
+    d_items = list(D.items())
+    while heap:
+        nk, lm = heap[0]
+        if lm not in rem:
+            heapq.heappop(heap)
+            continue
         steps += 1
         if steps > max_steps:
             return None
-        lm = max(rem, key=_mono_key)
         qm = _mono_div(lm, lead_d)
         if qm is None:
             return None
         qc = _pmul(rem[lm], inv_cd)
         q[qm] = _padd(q.get(qm, {}), qc)
-        for md, c in D.items():
+        for md, c in d_items:
             mm, _f = _mono_mul(qm, md)          # no reductions: both are free of constant roots
-            v = _padd(rem.get(mm, {}), _pneg(_pmul(qc, c)))
+            old = rem.get(mm)
+            v = _padd(old if old is not None else {}, _pneg(_pmul(qc, c)))
             if not v:
                 rem.pop(mm, None)
             else:
+                if old is None:
+                    heapq.heappush(heap, (_neg_key(mm), mm))
                 rem[mm] = v
     out = {}
     for xm, kc in q.items():
@@ -704,6 +722,20 @@ def _pdiv_exact(n, d, max_steps=20000):
                 m = tuple(sorted(xm + km))
                 out[m] = c
     return out
+
+
+class _neg_key:
+    """heap key with the order of _mono_key reversed (largest monomial first)"""
+    __slots__ = ("k",)
+
+    def __init__(self, m):
+        self.k = _mono_key(m)
+
+    def __lt__(self, o):
+        return self.k > o.k
+
+    def __eq__(self, o):
+        return self.k == o.k
 
 
 def _mk(n, d):
@@ -1044,3 +1076,67 @@ def eval_bool(c, env):
     if c.tag == "not":
         return not eval_bool(c.a, env)
     raise KeyError(c.tag)
+
+
+# ------------------------------------------------------------------ symbolic differentiation (C12)
+
+def _pdiff(p, sid):
+    """partial derivative of a polynomial with respect to the symbol sid, treating every other symbol as constant"""
+    out = {}
+    for m, c in p.items():
+        for k, (s, e) in enumerate(m):
+            if s == sid:
+                nm = m[:k] + (((s, e - 1),) if e > 1 else ()) + m[k + 1:]
+                out[nm] = out.get(nm, 0) + c * e
+                break
+    return {m: c for m, c in out.items() if c != 0}
+
+
+def diff(x, sid, _memo=None):
+    """d x / d sym(sid) for a scalar built from polynomials, quotients and defined symbols log / sqrt / exp
+    (chain rule through the definitions).  if-then-else symbols are differentiated branch-wise (valid away
+    from the switching surface: the contract keeps inputs away from the clipping thresholds)."""
+    x = Sym.const(x) if not isinstance(x, Sym) else x
+    if _memo is None:
+        _memo = {}
+
+    def dpoly(p):
+        tot = Sym(_pdiff(p, sid))
+        for s in {s for m in p for s, _ in m}:
+            info = T.syms[s]
+            if not info.kind.startswith("def:") or s == sid:
+                continue
+            ds = dsym(s)
+            if ds.is_zero():
+                continue
+            tot = tot + Sym(_pdiff(p, s)) * ds
+        return tot
+
+    def dsym(s):
+        if s in _memo:
+            return _memo[s]
+        info = T.syms[s]
+        kind = info.kind[4:]
+        d = info.data
+        if kind == "log":
+            r = diff(d, sid, _memo) / d
+        elif kind == "sqrt":
+            r = diff(d, sid, _memo) / (2 * Sym.of_id(s))
+        elif kind == "exp":
+            r = diff(d, sid, _memo) * Sym.of_id(s)
+        elif kind == "ite":
+            c, a, b = d
+            da, db = diff(a, sid, _memo), diff(b, sid, _memo)
+            r = da if da.same(db) else ite(c, da, db)
+        elif kind in ("const",):
+            r = Sym({})
+        elif kind == "opaque":
+            r = Sym({})          # independent of the inputs by construction (draws / library results are not differentiated)
+        else:
+            raise Unsupported(f"derivative of defined symbol kind {kind}")
+        _memo[s] = r
+        return r
+    if x.d is None:
+        return dpoly(x.n)
+    n, d = Sym(x.n), Sym(x.d)
+    return (dpoly(x.n) * d - n * dpoly(x.d)) / (d * d)
